@@ -267,6 +267,24 @@ func runC13(o *opts) (*summary, error) {
 					}
 					return projDateTime(st.SystemDateTime), nil
 				})
+				// get-time from a controller that is CONFIGURED with a time zone of its own (Device.TimeZone): the reported
+				// date-time is still the civil value on the wire
+				emit("GetTimeZonedController", "datetime", class, cdt, tex, func() (M, []byte) {
+					tzs := []string{"Asia/Kolkata", "America/New_York", "Pacific/Chatham", "nil", "UTC"}
+					u, d := stubClient(clientCfg{Devices: []devCfg{{Name: "z", Serial: 12345, Addr: "192.168.1.100:60000", Proto: "udp", TZ: tzs[rng.Intn(len(tzs))]}}})
+					d.script = func(method string, req []byte) [][]byte {
+						msg := make([]byte, 64)
+						msg[0], msg[1] = 0x17, 0x32
+						copy(msg[4:8], req[4:8])
+						copy(msg[8:15], []byte{bcd2(y / 100), bcd2(y % 100), bcd2(m), bcd2(dd), bcd2(h), bcd2(mi), bcd2(s)})
+						return [][]byte{msg}
+					}
+					t, err := u.GetTime(12345)
+					if err != nil || t == nil {
+						return M{"t": "err"}, nil
+					}
+					return projDateTime(t.DateTime), nil
+				})
 				// the same bytes arriving as an event: the listener recombines date and time in its own code
 				emit("ListenRecombine", "datetime", class, cdt, tex, func() (M, []byte) {
 					msg := make([]byte, 64)
